@@ -867,6 +867,7 @@ pub fn c13_sweep(seed: u64, pairs: usize, out: &mut Out) {
             }
             _ => { let n0 = rng.below(4); let d2 = 2 + rng.below(6) as u32; simple_pair_graph(&mut rng, n0, directed, d2) }
         };
+        out.log.about_to(&json!({"prop": "C13", "dir": directed, "n": a0.n, "E": a0.edges_json(), "nw0": w0, "n1": a1.n, "E1": a1.edges_json(), "nw1": w1}));
         if directed { c13_pair::<Directed>(out, &a0, &w0, &a1, &w1, &mut rng); } else { c13_pair::<Undirected>(out, &a0, &w0, &a1, &w1, &mut rng); }
     }
 }
